@@ -70,6 +70,9 @@ pub struct Report {
     pub samples: Vec<Value>,
     pub failures: Vec<Value>,
     pub known: Vec<Value>,
+    pub diffs: Vec<Value>,
+    pub n_diffs: u64,
+    pub n_failures: u64,
     pub notes: Vec<String>,
     pub extra: serde_json::Map<String, Value>,
 }
@@ -79,7 +82,27 @@ impl Report {
             self.samples.push(v);
         }
     }
+    /// model and implementation differ (or the model could not be evaluated)
+    pub fn diff(&mut self, v: Value) {
+        self.n_diffs += 1;
+        if self.diffs.len() < 10 {
+            self.diffs.push(v);
+        }
+    }
+    pub fn merge(&mut self, o: Report) {
+        self.evaluations += o.evaluations;
+        self.nontrivial.extend(o.nontrivial);
+        for s in o.samples { if self.samples.len() < 8 { self.samples.push(s); } }
+        for s in o.failures { if self.failures.len() < 50 { self.failures.push(s); } }
+        for s in o.diffs { if self.diffs.len() < 20 { self.diffs.push(s); } }
+        self.known.extend(o.known);
+        self.notes.extend(o.notes);
+        self.n_diffs += o.n_diffs;
+        self.n_failures += o.n_failures;
+        for (k, v) in o.extra { self.extra.insert(k, v); }
+    }
     pub fn fail(&mut self, v: Value) {
+        self.n_failures += 1;
         if self.failures.len() < 50 {
             self.failures.push(v);
         }
@@ -97,6 +120,9 @@ impl Report {
         m.insert("samples".into(), Value::Array(self.samples.clone()));
         m.insert("failures".into(), Value::Array(self.failures.clone()));
         m.insert("known".into(), Value::Array(self.known.clone()));
+        m.insert("diffs".into(), Value::Array(self.diffs.clone()));
+        m.insert("n_diffs".into(), self.n_diffs.into());
+        m.insert("n_failures".into(), self.n_failures.into());
         m.insert("notes".into(), Value::Array(self.notes.iter().map(|s| Value::from(s.as_str())).collect()));
         Value::Object(m)
     }
